@@ -45,7 +45,8 @@ ATOMS = [
 ]
 SUFFIX = [("", ""), ("opt", "?"), ("star", "*"), ("plus", "+"), ("unordered", "#"), ("suppress", "-"), ("star_sep", "*[',']"),
           ("plus_eolterm", "+[eolterm]"), ("star_sep_eolterm", "*[',' eolterm]"), ("plus_eolterm_sep", "+[eolterm ',']"),
-          ("star_re_sep", "*[/;|,/]"), ("opt_suppress", "?-"), ("plus_suppress", "+-")]
+          ("star_re_sep", "*[/;|,/]"), ("opt_suppress", "?-"), ("plus_suppress", "+-"),
+          ("plus_eolterm_other_case", "+[Eolterm]"), ("star_eolterm_other_case", "*[',' EOLTERM]")]
 PREFIX = [("", ""), ("", ""), ("not", "!"), ("and", "&")]
 RHS = [("rhs_str", "'x'"), ("rhs_re", "/\\w+/"), ("rhs_ref", "Other"), ("rhs_base", "STRING"), ("objref", "[Other]"),
        ("objref_rule", "[Other:ID]"), ("objref_bar", "[Other|ID]"), ("objref_qualified", "[pkg.Other:FQN]"),
@@ -56,7 +57,7 @@ RHS = [("rhs_str", "'x'"), ("rhs_re", "/\\w+/"), ("rhs_ref", "Other"), ("rhs_bas
        ("rhs_ref_qualified", "pkg.Other"), ("rhs_base_qualified", "ID.x"), ("rhs_base_prefix", "INTx"),
        ("objref_rrel_digit_ident", "[Other:ID|1a.b]"), ("objref_rrel_parent_digit", "[Other:ID|parent(1B).a]"),
        ("objref_rrel_fixed_no_tilde", "[Other:ID|'x' a.b]"), ("objref_rrel_tilde_only", "[Other:ID|~a.~b]"),
-       ("objref_rrel_generated", None)]
+       ("objref_rrel_parent_other_case", "[Other:ID|Parent(X).a]"), ("objref_rrel_generated", None)]
 RREL_FLAGS = ["", "", "+m:", "+p:", "+mp:", "+pm:", "+mm:", "+pp:", "+mpm:", "+ppm:", "+:", "+x:", "+m", "+ m:"]
 RREL_NAMES = ["a", "b", "parent", "p1", "_x", "élan", "1a", "parents"]
 RREL_TYPES = ["A", "Pkg", "1B", "_T"]
@@ -65,10 +66,12 @@ ASG_OPS = ["=", "+=", "*=", "?="]
 ASG_MODS = [("", ""), ("", ""), ("asg_sep", "[',']"), ("asg_eolterm", "[eolterm]"), ("asg_sep_eolterm", "[';' eolterm]")]
 PARAMS = [("", ""), ("", ""), ("param_noskipws", "[noskipws]"), ("param_ws", "[ws=' \\t']"), ("param_two", "[skipws, ws='\\n']"),
           ("param_split", "[split='/']")]
-HEADERS = [("", ""), ("", ""), ("", ""), ("import", "import other.grammar\n"), ("reference", "reference some-lang as sl\n"),
+HEADERS = [("import_other_case", "Import other.grammar\n"), ("reference_as_other_case", "reference lang2 AS l2\n"),
+           ("", ""), ("", ""), ("", ""), ("import", "import other.grammar\n"), ("reference", "reference some-lang as sl\n"),
            ("reference_plain", "reference lang2\n")]
 COMMENTS = ["", "", "", " // c\n", " /* c */ "]
-MUT_POOL = ["#", "-", "?", "*", "+", "|", "(", ")", "[", "]", ";", ":", "=", "+=", "!", "&", ",", "eolterm", "'s'", "/r/", "X", "1x",
+MUT_POOL = ["Eolterm", "EOLTERM", "Import", "AS", "Parent", "REFERENCE",
+            "#", "-", "?", "*", "+", "|", "(", ")", "[", "]", ";", ":", "=", "+=", "!", "&", ",", "eolterm", "'s'", "/r/", "X", "1x",
             "~", "^", ".", "+m:", "+p:", "parent", "//"]
 TOKEN = re.compile(r"""'(?:\\.|[^'])*'|"(?:\\.|[^"])*"|/(?:\\/|[^/\n])+/|\+[mp]+:|\w+|\+=|\*=|\?=|\S""")
 
@@ -162,12 +165,20 @@ _LANG = None
 
 
 def lang_parser():
+    """the grammar compiler's own parser object: the one textX caches for all grammar texts of the process.  The first
+    metamodel of the process is built here with ignore_case=True and autokwd=True - options of a *metamodel* must not
+    leak into how grammar texts are parsed afterwards."""
     global _LANG
     if _LANG is None:
-        from arpeggio import ParserPython
-        from textx import lang
+        from textx import lang, metamodel_from_str
 
-        _LANG = ParserPython(lang.textx_model, comment_def=lang.comment, ignore_case=False, reduce_tree=False)
+        if False not in lang.textX_parsers:
+            metamodel_from_str("Prime: 'x' name=ID;", ignore_case=True, autokwd=True)
+        _LANG = lang.textX_parsers.get(False)
+        if _LANG is None:  # textX no longer caches its grammar parser: build one the way the compiler documents it
+            from arpeggio import ParserPython
+
+            _LANG = ParserPython(lang.textx_model, comment_def=lang.comment, ignore_case=False, reduce_tree=False)
     return _LANG
 
 
